@@ -201,13 +201,14 @@ def _splits(tier):
         if tier == 'quick':
             combos = [(0, 'pd', 'dn'), (1, 'ns', 'dn'), (3, 'pd', 'ps'), (8, 'dn', 'ns')]
         else:
-            combos = [(sh, pa, pb) for sh in range(len(SHAPES)) for pa in PAIRS for pb in PAIRS]
+            pcs = [('pd', 'pd'), ('ns', 'dn'), ('dn', 'ps'), ('ps', 'ns')]
+            combos = [(sh, pa, pb) for sh in range(len(SHAPES)) for pa, pb in pcs]
         for sh, pa, pb in combos:
             for bits in range(4):
                 pre = ' and '.join(('' if bits & (1 << i) else 'not ') + v for i, v in enumerate(('pa1', 'pb1')))
                 if tier == 'quick':
                     pre += ' and (mut %% 4 == %d)' % bits + ' and not mdb' * (not (bits == 3 and sh == 1)) + ' and side == (mut >= 4)'
-                out.append({'how': how, 'shape': sh, 'pairA': pa, 'pairB': pb, 'probe': tier != 'quick' or bits == 0, '_pre': pre})
+                out.append({'how': how, 'shape': sh, 'pairA': pa, 'pairB': pb, 'probe': bits == 0 or (tier != 'quick' and bits == 3), '_pre': pre})
                 if bits in (1, 3) and (tier != 'quick' or how == 'pickle' or sh == 0):
                     out.append({'how': how, 'shape': sh, 'pairA': pa, 'pairB': pb, 'probe': False, 'sub': 1 + (bits == 1) * 1, '_pre': pre})
         for k in range(len(KINDS)):
